@@ -29,6 +29,7 @@ import DadiVerif.Generated.FileIO
    c14.fmtstr <p>                                            -> ok <to_file format> <array_to_file format>   (GENERATED)
    c14.precision <format>                                    -> ok <p> | err reject
    c14.iszero <tok>                                          -> ok 0|1
+   c14.rnd <p> <x num/den>                                   -> ok <roundSig p x> <rndModel p x> <roundBin x>   (exact rationals)
    pyval: `N` | `B0` | `B1` | `A<shape>:<toks>` | `M<bits>` | `S<strs>` | `X<x…>` | `K` (nomask) | `T<type name>` | `Y<x…>` (str)
           | `P<shape>;<toks>;<bits>;<0|1>;<labels>;<extrap>` (a Spectrum)
    object: `<shape> <data toks> <mask bits> <fill pyval> <folded pyval|-> <pop_ids pyval|-> <extrap_x pyval|-> <warnings strs>` -/
@@ -240,6 +241,9 @@ def handle (toks : List String) : Option String :=
   | ["c14.iszero", t] => do
       let t ← decStr t
       some (if tokIsZero t then "ok 1" else "ok 0")
+  | ["c14.rnd", p, x] => do
+      let p ← p.toNat?; let x ← parseRat x
+      some s!"ok {showRat (roundSig p x)} {showRat (rndModel p x)} {showRat (roundBin x)}"
   | ["c14.modes"] =>
       some ("ok " ++ " ".intercalate ([Gen.FileIO.toFileGzMode, Gen.FileIO.toFilePlainMode, Gen.FileIO.fromFileGzMode,
         Gen.FileIO.fromFilePlainMode, Gen.FileIO.arrayToFileMode, Gen.FileIO.arrayFromFileMode].map String.ofList))
